@@ -919,6 +919,16 @@ class RTCPeerConnection(AsyncIOEventEmitter):
                     transceiver._set_mid(media.rtp.muxId)
                     transceiver._set_mline_index(i)
 
+                    # an offer which was created but never applied may have
+                    # lent this position to a still unassociated transceiver
+                    for t in self.__transceivers:
+                        if (
+                            t is not transceiver
+                            and t.mid is None
+                            and t._get_mline_index() == i
+                        ):
+                            t._set_mline_index(None)
+
                 # negotiate codecs
                 common = filter_preferred_codecs(
                     find_common_codecs(CODECS[media.kind], media.rtp.codecs),
